@@ -27,6 +27,16 @@ def parse_contract(fn):
     return pres, raises
 
 
+def _innermost_in_verif(e):
+    tb = e.__traceback__
+    last = None
+    while tb is not None:
+        last = tb.tb_frame.f_code.co_filename
+        tb = tb.tb_next
+    root = os.path.dirname(os.path.dirname(os.path.abspath(__file__)))
+    return bool(last) and os.path.abspath(last).startswith(root + os.sep)
+
+
 def run(spec):
     if spec.get("ignore_known"):
         # replaying the recorded witness of a known finding: its own exclusion predicate must not apply
@@ -61,6 +71,10 @@ def run(spec):
     except Exception as e:
         if type(e).__name__ in raises:
             out["result"] = True
+        elif isinstance(e, (NameError, ImportError, SyntaxError)) and _innermost_in_verif(e):
+            # a slip in the harness itself (missing import, typo): says nothing about the property
+            out["result"] = "harness-bug"
+            out["exception"] = traceback.format_exc()[-2000:]
         else:
             out["result"] = "exception"
             out["exception"] = traceback.format_exc()[-2000:]
